@@ -195,6 +195,13 @@ var BlockMutations = []BlockMutation{
 	}},
 	{"nonce", true, func(w *World, b *nom.AccountBlock) bool { b.Nonce.Data[w.R.T.Choose(8)] ^= 1; return true }},
 	{"base-plasma", false, func(w *World, b *nom.AccountBlock) bool { b.BasePlasma += uint64(1 + w.R.T.Choose(1000)); return true }},
+	{"base-plasma-lower", false, func(w *World, b *nom.AccountBlock) bool {
+		if b.BasePlasma < 2 {
+			return false
+		}
+		b.BasePlasma = uint64(1 + w.R.T.Choose(int(b.BasePlasma-1)))
+		return true
+	}},
 	{"total-plasma", false, func(w *World, b *nom.AccountBlock) bool { b.TotalPlasma += uint64(1 + w.R.T.Choose(1000)); return true }},
 	{"changes-hash", false, func(w *World, b *nom.AccountBlock) bool { flipHash(w, &b.ChangesHash); return true }},
 	{"public-key", false, func(w *World, b *nom.AccountBlock) bool {
